@@ -257,6 +257,7 @@ func (r *chainRun) doStep(st *CStep) *Violation {
 		pre = n.ObsAll(r.u, StateObsOpts{Pool: true})
 	}
 	failed := false
+	failKind := "all" // what a reported failure allows to change: all=nothing, state-atomic=ledger may have changed, walk=no no-trace check
 	switch st.Op {
 	case "tx", "kvtx":
 		tx := r.buildTx(n, st)
@@ -304,6 +305,7 @@ func (r *chainRun) doStep(st *CStep) *Violation {
 			if err := n.S.Walk(n.L.GetMeta().TipBlockid, false); err != nil {
 				r.logf("pre-mine walk failed")
 				failed = true
+				failKind = "walk"
 				break
 			}
 			r.noteApplied(n, v)
@@ -320,13 +322,14 @@ func (r *chainRun) doStep(st *CStep) *Violation {
 				// ledger accepted, play failed
 				mb := r.registerBlock(blk)
 				v.noteStored(r.cm, mb.ID)
+				failKind = "state-atomic"
 			}
 			break
 		}
 		mb := r.registerBlock(blk)
 		v.noteStored(r.cm, mb.ID)
 		r.noteApplied(n, v)
-		r.logf("mined %s h=%d txs=%s", hx(blk.Blockid), mb.Height, descTxids(blk.Transactions))
+		r.logf("%s mined %s h=%d pre=%s txs=%s", n.Name, hx(blk.Blockid), mb.Height, hx(blk.PreHash), descTxids(blk.Transactions))
 		r.rc.St.Probes["blocks-mined"]++
 		if len(blk.Transactions) > 1 {
 			r.rc.St.Probes["blocks-with-txs"]++
@@ -336,13 +339,14 @@ func (r *chainRun) doStep(st *CStep) *Violation {
 			break
 		}
 		mb := r.cm.Order[1+abs(st.A)%(len(r.cm.Order)-1)]
-		failed = r.deliver(n, v, mb, st.Via%4)
+		failed, failKind = r.deliver(n, v, mb, st.Via%4)
 	case "walk":
 		target := v.stored[abs(st.A)%len(v.stored)]
 		before := n.S.GetLatestBlockid()
 		err := n.S.Walk([]byte(target), st.Flag)
 		r.logf("walk %s -> %s prune=%v: %v", hx(before), hx([]byte(target)), st.Flag, err != nil)
 		failed = err != nil
+		failKind = "walk"
 		if st.Flag {
 			v.pruned = true
 		}
@@ -391,15 +395,17 @@ func (r *chainRun) doStep(st *CStep) *Violation {
 			r.logf("truncate: walk refused")
 			r.noteApplied(n, v)
 			failed = true
+			failKind = "walk"
 			break
 		}
 		r.noteApplied(n, v)
 		if err := n.L.Truncate(tb.Blockid); err != nil {
 			r.logf("truncate failed: %v", err)
 			failed = true
+			failKind = "walk"
 			break
 		}
-		r.logf("truncate to %s h=%d", hx(tb.Blockid), h)
+		r.logf("%s truncate to %s h=%d", n.Name, hx(tb.Blockid), h)
 		r.rc.St.Probes["truncate"]++
 		var keep []string
 		for _, id := range v.stored {
@@ -412,7 +418,7 @@ func (r *chainRun) doStep(st *CStep) *Violation {
 		v.stored = keep
 		v.tip = string(tb.Blockid)
 	default:
-		if v := r.doAdversarial(st, n, v, &failed); v != nil {
+		if v := r.doAdversarial(st, n, v, &failed, &failKind); v != nil {
 			return v
 		}
 	}
@@ -429,10 +435,23 @@ func (r *chainRun) doStep(st *CStep) *Violation {
 	} else if len(r.rc.BG) > 0 {
 		r.rc.St.Probes["bg-deferred"]++
 	}
-	if failed && r.cfg.NoTrace && pre != nil && len(r.rc.BG) == 0 {
+	if failed && r.cfg.NoTrace && pre != nil && len(r.rc.BG) == 0 && failKind != "walk" {
 		post := n.ObsAll(r.u, StateObsOpts{Pool: true})
-		if d := Diff(pre, post, r.noTraceFilter(st)); d != "" {
-			return r.viol("failed-op-left-trace", "operation %s on %s reported failure but observations changed: %s", st.Op, n.Name, d)
+		inPre := func(k string) bool { _, ok := pre.KV[k]; return ok } // the universe of questions may have grown
+		filter := inPre
+		if failKind == "state-atomic" {
+			filter = func(k string) bool {
+				return inPre(k) && strings.HasPrefix(k, "S.") && !strings.HasPrefix(k, "S.qtx.") && !strings.HasPrefix(k, "S.baldet.") && !strings.HasPrefix(k, "S.frozen.")
+			}
+		}
+		if d := Diff(pre, post, filter); d != "" {
+			vi := r.viol("failed-op-left-trace", "operation %s on %s reported failure but observations changed: %s", st.Op, n.Name, d)
+			// discriminate the known in-memory total defect: total / meta are the only differences
+			onlyTotal := Diff(pre, post, func(k string) bool { return filter(k) && k != "S.total" && k != "S.meta" }) == ""
+			if onlyTotal {
+				vi.Clause = "failed-op-left-trace-in-memory-total"
+			}
+			return vi
 		}
 		r.rc.St.Probes["failed-op-checked"]++
 	}
@@ -442,19 +461,6 @@ func (r *chainRun) doStep(st *CStep) *Violation {
 		}
 	}
 	return nil
-}
-
-func (r *chainRun) noTraceFilter(st *CStep) func(string) bool {
-	return func(k string) bool {
-		// a failed multi-block walk may rest at any block of its path and its pool rollback is its own
-		// committed step (DESIGN §6 C05); everything else must be unchanged
-		if st.Op == "walk" || st.Op == "truncate" || st.Op == "mine" || st.Op == "deliver" {
-			if strings.HasPrefix(k, "S.") {
-				return false
-			}
-		}
-		return true
-	}
 }
 
 func (r *chainRun) dropBG() { r.rc.BG = nil }
@@ -479,7 +485,7 @@ func (r *chainRun) noteApplied(n *Node, v *nodeView) {
 }
 
 // deliver hands a known block to a node. Returns whether the operation reported failure.
-func (r *chainRun) deliver(n *Node, v *nodeView, mb *MBlock, via int) bool {
+func (r *chainRun) deliver(n *Node, v *nodeView, mb *MBlock, via int) (bool, string) {
 	parentKnown := v.storedSet[string(mb.Pre)]
 	dup := v.storedSet[string(mb.ID)]
 	blk := CloneBlock(mb.Block)
@@ -498,19 +504,19 @@ func (r *chainRun) deliver(n *Node, v *nodeView, mb *MBlock, via int) bool {
 		if err == nil {
 			r.rc.St.Probes["procblock-ok"]++
 		}
-		return err != nil
+		return err != nil, "walk"
 	default:
 		if dup {
 			// ledger.ConfirmBlock is only ever called for blocks not yet stored (callers check
 			// ExistBlock); the harness respects that precondition
 			r.logf("skip duplicate confirm")
-			return false
+			return false, ""
 		}
 		st := n.L.ConfirmBlock(blk, false)
 		r.logf("confirm %s -> %s: succ=%v", hx(mb.ID), n.Name, st.Succ)
 		if !st.Succ {
 			r.rc.St.Probes["confirm-refused"]++
-			return true
+			return true, "all"
 		}
 		if !parentKnown {
 			// reported to the caller through the ledger oracle (block without parent stored)
@@ -534,9 +540,12 @@ func (r *chainRun) deliver(n *Node, v *nodeView, mb *MBlock, via int) bool {
 		if err != nil {
 			r.logf("state step failed")
 			r.rc.St.Probes["play-refused"]++
-			return true
+			if via == 3 {
+				return true, "state-atomic"
+			}
+			return true, "walk"
 		}
-		return false
+		return false, ""
 	}
 }
 
